@@ -105,7 +105,7 @@ theorem C15_messages_as_specified (impl : Impl) (app : Str) (override : Bool) (s
     have hwg := hw.msgs g hg
     have hwg' := hwg
     simp only [wfMessage, Bool.and_eq_true, wfFields] at hwg'
-    obtain ⟨⟨_, hdir⟩, ⟨_, hfields⟩, _⟩ := hwg'
+    obtain ⟨⟨_, hdir⟩, hfields, _⟩ := hwg'
     obtain ⟨_, _, d3⟩ := direction_facts hdir
     have hnames : (g.fields.map (fieldSem s)).map (·.name) = g.fields.map (resolvedName s) := by
       rw [List.map_map]
